@@ -89,7 +89,9 @@ def euler_in_band(R, margin=1.0e-3 * (1 + 1e-7)):
     return abs(s) >= math.cos(margin)
 
 
-def mrp_product_singular(a, b, margin=0.05):
+def mrp_product_singular(a, b, margin=1e-5):
+    """the composed rotation is a full turn (the MRP product formula divides by den = 1 + |a|^2 |b|^2 - 2 a.b): only the immediate
+    neighbourhood is outside the domain - for den >= 1e-5 (relative) the formula is accurate to 1e-11"""
     na, nb = float(a @ a), float(b @ b)
     den = 1.0 + na * nb - 2.0 * float(b @ a)
     return abs(den) < margin * (1 + na) * (1 + nb) / 4.0 or abs(den) < margin
